@@ -12,8 +12,8 @@ EXTENDS Admit, TLC, Json
 
 CONSTANTS Vocab, MaxSegs, Fam
 
-VARIABLES abs, segs
-vars == <<abs, segs>>
+VARIABLES abs, segs, done
+vars == <<abs, segs, done>>
 
 P == Join(abs, segs)
 IsAsciiT(t) == \A i \in 1..Len(t) : t[i] < 128
@@ -59,13 +59,35 @@ Case(p) ==
      inplace |-> AdmissibleN(SA, p, IsAbs(p), NormSegs(p)),
      ctxs |-> CtxCases(1, p)]
 
-Init == abs \in BOOLEAN /\ segs = <<>> /\ PrintT(ToJson(Case(Join(abs, <<>>))))
-Next == /\ Len(segs) < MaxSegs
+(* Long paths: more than 16 normalized segments and more than 512 bytes, the two inline-buffer *)
+(* thresholds of the implementation (SmallVec spill), built from repeating patterns.           *)
+RECURSIVE RepeatSeg(_, _)
+RepeatSeg(s, n) == IF n = 0 THEN <<>> ELSE s \o RepeatSeg(s, n - 1)
+Big == RepeatSeg(<<97, 98, 99, 100, 101, 102, 103, 104, 105, 106>>, 6)           \* a 60-byte segment
+Patterns == << <<<<97>>, <<98>>>>,                                 \* a/b/a/b...
+               <<<<97>>, DOTDOT, <<98>>, DOT>>,                    \* a/../b/./...
+               <<<<97>>, <<98>>, DOTDOT>>,                         \* a/b/../...
+               <<DOTDOT, <<97>>>>,                                 \* ../a/../a
+               <<<<97>>, <<>>, <<98, 58, 99>>>>,                   \* a//b:c/...
+               <<Big, <<233>>, DOTDOT, Big>> >>
+PatternPath(k, n) == [i \in 1..n |-> Patterns[k][((i - 1) % Len(Patterns[k])) + 1]]
+LongSegLists == {PatternPath(k, n) : k \in 1..Len(Patterns), n \in {16, 17, 18, 33, 40}}
+
+Init == abs \in BOOLEAN /\ segs = <<>> /\ done = TRUE /\ PrintT(ToJson(Case(Join(abs, <<>>))))
+\* two steps, so that the long paths are spread over TLC's workers (the successors of one
+\* state are computed by one thread)
+Long == /\ segs = <<>> /\ done
+        /\ \E L \in LongSegLists : segs' = L /\ abs' = abs /\ done' = FALSE
+EmitLong == /\ ~done /\ done' = TRUE /\ UNCHANGED <<abs, segs>>
+            /\ LET p == Join(abs, segs) IN (Segs(p) = segs /\ IsAbs(p) = abs) => PrintT(ToJson(Case(p)))
+Grow == /\ Len(segs) < MaxSegs /\ done /\ done' = TRUE
         /\ \E s \in Vocab :
              /\ segs' = Append(segs, s)
              /\ abs' = abs
              /\ LET p == Join(abs, segs')
                 IN  (Segs(p) = segs' /\ IsAbs(p) = abs) => PrintT(ToJson(Case(p)))
+
+Next == Grow \/ Long \/ EmitLong
 
 (***************************************************************************)
 (* Design theorems (C09)                                                   *)
@@ -73,7 +95,7 @@ Next == /\ Len(segs) < MaxSegs
 Lone(X) == IF X = << <<>> >> THEN <<>> ELSE X
 NoDots(X) == \A i \in 1..Len(X) : X[i] # DOT /\ (X[i] = DOTDOT => (~abs /\ \A m \in 1..i : X[m] = DOTDOT))
 Theorems ==
-    Distinct =>
+    (Distinct /\ Len(segs) <= 18) =>      \* (the longest generated paths are only printed as cases)
       LET p == P
           N == NormSegs(p)
           copies == AdmissibleN(SA, p, abs, NormCopySegs(p))
